@@ -61,6 +61,9 @@ def cold_battery():
         _cold = json.loads(p.stdout.strip().splitlines()[-1])
     return _cold
 
+def enc_any(r):
+    return "!" + r.name if isinstance(r, Err) else json.dumps(r)
+
 def cold_modules():
     """every history starts on freshly executed theory modules (whatever memo tables they keep are empty again): a table that
     leaks only on a miss is then exposed by every history, not just by the first one of the process"""
@@ -220,6 +223,24 @@ def lookups_cold(fs):
         out.append(m._find_log_index(float(f)))
     return out
 
+def find_notes_history(tables, max_note):
+    """find_notes on several (frequency, amplitude) tables one after the other, against each table on a freshly reloaded
+    module: an answer must not remember the tables seen before (result objects are also mutated after each call)"""
+    warm, cold = [], []
+    for tb in tables:
+        t = [(float(f), float(a)) for f, a in tb]
+        r = fft.find_notes(t, max_note)
+        warm.append([[None if n is None else int(n), F(a)] for n, a in r if a != 0])
+        try:
+            r[0] = ("scribble", 1e9); r.append(("scribble", 1e9))
+        except Exception:
+            pass
+    for tb in tables:
+        m = importlib.reload(fft)
+        t = [(float(f), float(a)) for f, a in tb]
+        cold.append([[None if n is None else int(n), F(a)] for n, a in m.find_notes(t, max_note) if a != 0])
+    return [warm, cold]
+
 TABLE = [F(x) for x in fft._log_cache]
 
 def built_track_sharing(how, arg):
@@ -253,6 +274,7 @@ def built_track_sharing(how, arg):
 
 IMPL = {
     "alias.built": built_track_sharing,
+    "alias.find_notes": find_notes_history,
     "alias.memo": run_memo,
     "alias.battery": memo_then_battery,
     "alias.args": arg_aliasing,
@@ -271,7 +293,7 @@ def rand_calls(rng, n):
     nq = 0
     for _ in range(n):
         k = rng.random()
-        key = rng.choice(["C", "Eb", "f#", "a", "G", "Bb", "H"]) if rng.random() < 0.7 else rng.choice(KEYS)
+        key = rng.choice(["C", "Eb", "f#", "a", "G", "Bb", "H", "G#", "db"]) if rng.random() < 0.7 else rng.choice(KEYS)
         if k < 0.65 or nq == 0:
             a = rng.choice(["get_notes", "triads", "sevenths", "func", "func", "to_chords"])
             if a == "func":
@@ -300,6 +322,12 @@ def cases(tier, rng):
     for cl in (["C", "F", "G", "C"], ["Am", "Am"], ["C", ["F", "C"], None, "C"], ["Dm7", "G7", "Dm7", "G7"]):
         yield Case("alias.built", ["from_chords", cl], "instances/built-track", model=False, kind=("list",))
     yield Case("alias.built", ["copied_container", ["C", "E", "G"]], "instances/built-track", model=False, kind=("list",))
+    for _ in range(10 if tier == "quick" else 100):
+        tabs = []
+        for _ in range(rng.randint(2, 5)):
+            tabs.append([[F(rng.choice([27.5, 440.0, 441.0, 4186.0, 9000.0, 15000.0, 26000.0, 30000.0, 0.0, -3.0, 2 ** rng.uniform(4, 15)])),
+                          F(rng.choice([0, 1, 2, 4, 50]))] for _ in range(rng.randint(0, 8))])
+        yield Case("alias.find_notes", [tabs, rng.choice([100, 60, 128])], "lookup/find_notes", model=False, kind=("lookup_cold",))
     yield Case("alias.methods", [], "args/methods", model=False, kind=("list",))
     yield Case("alias.siblings", [], "instances/siblings", model=False, kind=("list",))
     for cls in ["NoteContainer", "Bar", "Track", "Composition", "Suite"]:
@@ -332,6 +360,18 @@ def oracle(c, obs):
                     got = r[0] if call[1] == "get_notes" and not isinstance(r, Err) else r
                     if got != want:
                         return "a query returned a value that differs from a cold interpreter's after the preceding calls"
+        # the history starts on cold modules, so the first answer to a query IS the cold answer: every later identical query
+        # (valid or invalid key alike) must answer the same, whatever was called or scribbled in between
+        first = {}
+        for call, r in zip(calls, obs):
+            if call[0] != "q":
+                continue
+            k = json.dumps(call)
+            if k in first:
+                if enc_any(r) != first[k]:
+                    return "the same query answered differently later in the history (first %s, then %s)" % (first[k][:60], enc_any(r)[:60])
+            else:
+                first[k] = enc_any(r)
         return None
     if kind == "battery":
         return None if obs is True else "after a history of calls and mutations the query battery differs from a cold interpreter"
